@@ -65,6 +65,7 @@ Record Num := {
   neg : T -> T;
   nabs : T -> T;
   div : T -> T -> res T;           (* Python float division: ZeroDivisionError on 0 *)
+  same : T -> T -> bool;           (* identical values: bit-for-bit on floats; used only to compare outputs *)
   eqb : T -> T -> bool;            (* == with IEEE semantics on floats *)
   ltb : T -> T -> bool;
   leb : T -> T -> bool;
